@@ -93,6 +93,16 @@ fn viol(rep: &mut Report, what: &str, detail: String, case: String) {
 
 /// constant-frequency run: phase, saw, square, sine, simplex in lock-step
 fn run_const(rep: &mut Report, rate: f64, hz: f64, frames: u64) -> bool {
+    match vmon::catch(std::panic::AssertUnwindSafe(|| run_const_inner(rep, rate, hz, frames))) {
+        Ok(ok) => ok,
+        Err(m) => {
+            viol(rep, "panic", format!("rate {:e} hz {:e}: panicked: {}", rate, hz, m), format!("kind=const;rate={:e};hz={:e};frames={}", rate, hz, frames));
+            false
+        }
+    }
+}
+
+fn run_const_inner(rep: &mut Report, rate: f64, hz: f64, frames: u64) -> bool {
     let case = format!("kind=const;rate={:e};hz={:e};frames={}", rate, hz, frames);
     let step = hz / rate;
     if !step.is_finite() {
@@ -155,6 +165,17 @@ fn check_waves(rep: &mut Report, p: f64, saw: f64, square: f64, sine: f64, simpl
 
 /// variable frequency: control source pulled exactly once per output
 fn run_variable(rep: &mut Report, rate: f64, hzs: Rc<Vec<f64>>, label: &str, seed: u64) -> bool {
+    let n = hzs.len();
+    match vmon::catch(std::panic::AssertUnwindSafe(|| run_variable_inner(rep, rate, hzs, label, seed))) {
+        Ok(ok) => ok,
+        Err(m) => {
+            viol(rep, "panic", format!("rate {:e} pattern {}: panicked: {}", rate, label, m), format!("kind=var;rate={:e};pattern={};seed={};frames={}", rate, label, seed, n));
+            false
+        }
+    }
+}
+
+fn run_variable_inner(rep: &mut Report, rate: f64, hzs: Rc<Vec<f64>>, label: &str, seed: u64) -> bool {
     let case = format!("kind=var;rate={:e};pattern={};seed={};frames={}", rate, label, seed, hzs.len());
     let mk = |probe: &Rc<Probe>| signal::rate(rate).hz(USource::finite(hzs.clone(), probe.clone()));
     let probes: Vec<Rc<Probe>> = (0..5).map(|_| Probe::new()).collect();
@@ -313,7 +334,7 @@ fn main() {
     rep.oblige("dyadic_exact_runs", 1);
 
     // ---- constant frequency, every (rate, multiple) pair
-    let frames_c = cli.t(3_000u64, 60_000u64);
+    let frames_c = cli.t(3_000u64, 600_000u64);
     let mut jobs: Vec<(f64, f64, u64)> = Vec::new();
     for &r in &rates {
         for &m in &mults {
@@ -321,7 +342,7 @@ fn main() {
         }
     }
     // long runs with tiny and with awkward steps (drift)
-    let long = cli.t(300_000u64, 10_000_000u64);
+    let long = cli.t(300_000u64, 50_000_000u64);
     jobs.push((44_100.0, 440.0, long));
     jobs.push((48_000.0, 1e-3, long));
     jobs.push((1.0, 0.1, long));
@@ -340,7 +361,7 @@ fn main() {
     }
 
     // ---- variable frequency
-    let frames_v = cli.t(2_000usize, 50_000usize);
+    let frames_v = cli.t(2_000usize, 500_000usize);
     let reps = vmon::par_for(cli.threads, rates.len() as u64 * 4, 1, |_| Report::new("C17", "w"), |rep, i| {
         let rate = rates[(i / 4) as usize];
         let seed = cli.seed.wrapping_add(i % 4);
